@@ -298,7 +298,7 @@ Theorem C02_structured_program_runs : forall s p reg s' r c f,
   exists rf cf,
     Steps r rf /\ cur rf = Some cf /\ c_frames cf = [] /\
     c_values cf = match reg with RNone => [] | v => [cv v] end /\
-    r_nss rf = mnss (st_nss s') /\
+    world rf = (mnss (st_nss s'), st_trace s') /\
     do_iter rf = Ok (Return REmpty rf) /\
     forall fuel n x r', execute_do fuel r n = Ok (x, r') ->
       (x = REmpty /\ r' = rf) \/ (x = ROk /\ Steps r r' /\ Steps r' rf).
@@ -524,7 +524,7 @@ Theorem C02_program_runs : forall s p reg s' r c f,
   exists rf cf,
     Steps r rf /\ cur rf = Some cf /\ c_frames cf = [] /\
     c_values cf = match reg with RNone => [] | v => [cv v] end /\
-    r_nss rf = mnss (st_nss s') /\
+    world rf = (mnss (st_nss s'), st_trace s') /\
     do_iter rf = Ok (Return REmpty rf) /\
     forall fuel n x r', execute_do fuel r n = Ok (x, r') ->
       (x = REmpty /\ r' = rf) \/ (x = ROk /\ Steps r r' /\ Steps r' rf).
@@ -574,7 +574,7 @@ Theorem C02_program_runs_with_exit : forall s p out s' r c f,
   AtM s RNone r c f [] [] -> f_code f = compile_block p -> f_pos f = 0 -> f_exit f = None ->
   exists rf cf,
     Steps r rf /\ cur rf = Some cf /\ c_frames cf = [] /\ c_values cf = root_value out /\
-    r_nss rf = mnss (st_nss s') /\
+    world rf = (mnss (st_nss s'), st_trace s') /\
     do_iter rf = Ok (Return REmpty rf) /\
     forall fuel n x r', execute_do fuel r n = Ok (x, r') ->
       (x = REmpty /\ r' = rf) \/ (x = ROk /\ Steps r r' /\ Steps r' rf).
@@ -596,4 +596,68 @@ Proof.
     - eapply ZCode.
     - eapply ZBLast. eapply ZSExprV. eapply ZPure. eapply PBin; [eapply PVarG; reflexivity|eapply PNum|reflexivity]. }
   split; reflexivity.
+Qed.
+
+(* ---- what the property observes: "the sequence of statements executed", seen through the markers a program logs with
+   diag_log.  Match relates the machine's log to the trace of the reference state (world: namespaces and markers), diag_log is
+   a constructor of the relation (ZDiag), so every theorem above also says that the markers are logged in the order of the
+   reference semantics; for a whole program: the markers the machine has logged when execute_do returns `empty` are exactly
+   the reference run's, in the same order.  The relation also covers the namespaces a program can name (missionNamespace,
+   uiNamespace), with ns do {..}, getVariable / setVariable on them, private "x", and the operators str, unary - and +, *,
+   ==, !=, isEqualTo next to the earlier ones. *)
+Theorem C02_program_trace : forall s p reg s' r c f,
+  zprog s RNone p reg s' ->
+  AtM s RNone r c f [] [] -> f_code f = compile_block p -> f_pos f = 0 -> f_exit f = None ->
+  (exists f0, forall fl, f0 <= fl -> st_trace (snd (eval_block fl s p RNone)) = st_trace s') /\
+  exists rf, Steps r rf /\ do_iter rf = Ok (Return REmpty rf) /\ marks (r_out rf) = st_trace s' /\
+             forall fuel n x r', execute_do fuel r n = Ok (x, r') -> x = REmpty -> marks (r_out r') = st_trace s'.
+Proof. exact program_trace. Qed.
+Print Assumptions C02_program_trace.
+(* i = 0; while { i < 3 } do { diag_log i; i = i + 1 }  logs 0, 1, 2 in that order (the trace is kept newest first) *)
+Definition ex_trace_prog : list stmt :=
+  [SAssign "i" (ENum 0);
+   SExpr (EBinary "do" (EUnary "while" (ECode [SExpr (EBinary "<" (EVar "i") (ENum 3))]))
+                       (ECode [SExpr (EUnary "diag_log" (EVar "i")); SAssign "i" (EBinary "+" (EVar "i") (ENum 1))]))].
+Example trace_inhabited : exists s', zprog init_state RNone ex_trace_prog RNil s' /\ st_trace s' = ["2"; "1"; "0"].
+Proof.
+  eexists. split.
+  { eapply ZPCons; [eapply ZSAssign; [discriminate|eapply ZPure; eapply PNum|split; discriminate]|].
+    eapply ZPLast. eapply ZSExprV. eapply ZWhileLoop; [reflexivity|eapply ZWhileVal; [reflexivity|intros ? ?; discriminate|eapply ZCode]|eapply ZCode| | |].
+    - eexists _, _. split; [reflexivity|]. right. eexists. reflexivity.
+    - eexists _, _. split; [reflexivity|]. right. eexists. reflexivity.
+    - eapply ZWhileRound; [eapply ZBLast; eapply ZSExprV; eapply ZPure; eapply PBin; [eapply PVarG; reflexivity|eapply PNum|reflexivity]
+                          |eapply ZBCons; [eapply ZSExprV; eapply ZDiag; [reflexivity|intros ? ?; discriminate|eapply ZPure; eapply PVarG; reflexivity|split; discriminate|reflexivity]|];
+                           eapply ZBLast; eapply ZSAssign; [discriminate|eapply ZPure; eapply PBin; [eapply PVarG; reflexivity|eapply PNum|reflexivity]|split; discriminate]|].
+      eapply ZWhileRound; [eapply ZBLast; eapply ZSExprV; eapply ZPure; eapply PBin; [eapply PVarG; reflexivity|eapply PNum|reflexivity]
+                          |eapply ZBCons; [eapply ZSExprV; eapply ZDiag; [reflexivity|intros ? ?; discriminate|eapply ZPure; eapply PVarG; reflexivity|split; discriminate|reflexivity]|];
+                           eapply ZBLast; eapply ZSAssign; [discriminate|eapply ZPure; eapply PBin; [eapply PVarG; reflexivity|eapply PNum|reflexivity]|split; discriminate]|].
+      eapply ZWhileRound; [eapply ZBLast; eapply ZSExprV; eapply ZPure; eapply PBin; [eapply PVarG; reflexivity|eapply PNum|reflexivity]
+                          |eapply ZBCons; [eapply ZSExprV; eapply ZDiag; [reflexivity|intros ? ?; discriminate|eapply ZPure; eapply PVarG; reflexivity|split; discriminate|reflexivity]|];
+                           eapply ZBLast; eapply ZSAssign; [discriminate|eapply ZPure; eapply PBin; [eapply PVarG; reflexivity|eapply PNum|reflexivity]|split; discriminate]|].
+      eapply ZWhileStop. eapply ZBLast; eapply ZSExprV; eapply ZPure; eapply PBin; [eapply PVarG; reflexivity|eapply PNum|reflexivity]. }
+  reflexivity.
+Qed.
+(* with uiNamespace do { x = 5 }; str ((uiNamespace getVariable "x") * 2) == "10"  yields true: the assignment inside with-do and
+   getVariable use one storage, and the operators mean what the reference semantics says *)
+Definition ex_ns_prog : list stmt :=
+  [SExpr (EBinary "do" (EUnary "with" (ENular "uiNamespace")) (ECode [SAssign "x" (ENum 5)]));
+   SExpr (EBinary "==" (EUnary "str" (EBinary "*" (EBinary "getVariable" (ENular "uiNamespace") (EStr "x")) (ENum 2))) (EStr "10"))].
+Example namespace_inhabited : exists s', zprog init_state RNone ex_ns_prog (RBool true) s' /\ rns_get s' "uiNamespace" "x" = Some (RNum 5).
+Proof.
+  eexists. split.
+  { eapply ZPCons.
+    - eapply ZSExprV. change RNil with (val_of (BNorm RNil)).
+      eapply ZWithDo; [reflexivity|eapply ZWithVal; [reflexivity|intros ? ?; discriminate|eapply ZNsNular; reflexivity]|eapply ZCode|].
+      eapply ZBLast. eapply ZSAssign; [discriminate|eapply ZPure; eapply PNum|split; discriminate].
+    - eapply ZPLast. eapply ZSExprV.
+      eapply ZBin.
+      { eapply ZUn; [intros ? ?; discriminate| |].
+        { eapply ZBin.
+          { eapply ZGetVar; [reflexivity|eapply ZNsNular; reflexivity|eapply ZPure; eapply PStr|reflexivity|discriminate]. }
+          { eapply ZPure; eapply PNum. }
+          reflexivity. }
+        reflexivity. }
+      { eapply ZPure; eapply PStr. }
+      reflexivity. }
+  reflexivity.
 Qed.
